@@ -1,14 +1,13 @@
 #!/bin/bash
-# Builds the vx driver. Offline, standard library only.
+# Builds the vx driver and warms the build cache for every registered check. Offline, standard library only.
 set -e
 cd "$(dirname "$0")"
 export GOFLAGS=-mod=mod GOPROXY=off
 mkdir -p bin evidence replays
 go build -o bin/vx ./tools/vx
 if [ "$1" != "--no-warm" ]; then
-  for d in harness/*/; do
-    id=$(basename "$d")
-    if [ -f "$d/harness.json" ]; then ./bin/vx build "$id" || exit 2; fi
+  for id in $(jq -r '.checks[].property_id' MANIFEST.json); do
+    ./bin/vx build "$id" || exit 2
   done
 fi
 echo "setup ok"
